@@ -4,21 +4,23 @@
 
   Modelled, in source order (odf/element.py, odf/opendocument.py as of commits 0015fcf, 437b145, b44089a):
 
-    Node.removeChild            -> `removeChild`   (… remove_from_caches, _set_owner(old, None), parentNode = None)
+    Node.removeChild            -> `removeChild`   (`unlink`, `dropFromIndexes` = remove_from_caches + _set_owner(old, None),
+                                   then parentNode = None)
     Node.appendChild            -> `appendChild`   (… _child_attached last)
     Node.insertBefore           -> `insertBefore`  (… _child_attached last)
     Node._child_attached        -> `childAttached` (_set_owner(new, doc); if doc and element: doc.rebuild_caches(new))
     _set_owner                  -> `setOwnerRec`
     OpenDocument.rebuild_caches -> `rebuildCaches` (node given) / `rebuildAll` (node None: starts from empty indexes)
-    OpenDocument.build_caches   -> `buildCaches`   (element_dict append, `registerStyle`, the text:style-name rewrite)
+    OpenDocument.build_caches   -> `buildCaches`   (`edAppend`, `registerIfStyle`, `fixStyleRef`)
     __register_stylename        -> `registerStyle` (the 'M'+name rename on collision, `_styles_ooo_fix`) — modelled EXACTLY
-    remove_from_caches          -> `removeFromCaches`
+    remove_from_caches          -> `removeFromCaches` (`edDrop`, `dropStyleEntry` per element)
     getElementsByType (document)-> `docByType`     (rebuilds when element_dict == {})
     getStyleByName              -> `styleByName`   (rebuilds when _styles_dict == {}; the caller passes make_NCName(name))
-    Element.getElementsByType   -> `elByType`      (pure)
+    Element.getElementsByType   -> `elByType` = `getByObj` (the accumulator recursion of _getElementsByObj)
     OpenDocument.__init__ (part)-> `mkDoc`         (topnode.ownerDocument = self; clear_caches())
     __replaceGenerator          -> `replaceGenerator`
     Element.addElement/addText/addCDATA -> wrappers as in Dom
+    (`clear_caches()` as a public call is not part of the histories of C09 and not modelled.)
 
   The three Python recursions (`_set_owner`, `rebuild_caches(node)`, `remove_from_caches`) walk the
   subtree in pre-order and never change a child list, so each is modelled as: compute the pre-order
